@@ -798,6 +798,115 @@ def stream_linop_loss(ctx, model):
             _cmp_vec(ctx, "linop_loss.hessian", case, H(X), G.from_cv(goth["apply"]), linop_loss_oracle, rt)
 
 
+def stream_setdist_convex(ctx, model):
+    """theorem C07_squared_distance_convex on the real code: for projections onto closed convex sets that are NOT
+    affine (l2 ball, non-negative orthant, box; real and complex) the gradient JAX computes by differentiating
+    THROUGH `proj` must be the documented x - P(x) for SquaredSetDistance (every x, points of the set included) and
+    (x - P(x))/d(x) for SetDistance outside the set; P(x) is recomputed independently with numpy."""
+    import jax.numpy as jnp
+    import scico.numpy as snp
+    from scico import functional
+
+    rng = ctx.rng
+    for _ in range(ctx.n(16, 120)):
+        cplx = bool(rng.random() < 0.5)
+        dt = np.complex128 if cplx else np.float64
+        n = int(rng.integers(1, 5))
+        kind = ["ball", "orthant", "box"][int(rng.integers(3))]
+        x = G.dy(rng, (n,), cplx, nz=True) + 2.0**-6
+        if kind == "ball":
+            r = float(rng.choice([0.5, 1.0, 2.0]))
+            proj = lambda v, r=r: v * jnp.minimum(1.0, r / jnp.sqrt(jnp.sum(jnp.abs(v) ** 2)))  # noqa: E731
+            nx = float(np.linalg.norm(x))
+            if abs(nx - r) < 1e-3:
+                continue  # on the sphere P is not differentiable (the squared distance is, but JAX's contract for P fails)
+            Px = x * min(1.0, r / nx)
+        elif kind == "orthant":
+            proj = (lambda v: jnp.maximum(jnp.real(v), 0.0) + 1j * jnp.imag(v)) if cplx else (lambda v: jnp.maximum(v, 0.0))
+            if np.any(np.abs(x.real) < 1e-6):
+                continue
+            Px = np.maximum(x.real, 0.0) + 1j * x.imag
+        else:
+            lo, hi = -0.5, 0.75
+            proj = (lambda v: jnp.clip(jnp.real(v), lo, hi) + 1j * jnp.clip(jnp.imag(v), lo, hi)) if cplx else (lambda v: jnp.clip(v, lo, hi))
+            if any(abs(c - b) < 1e-6 for c in list(x.real) + list(x.imag) for b in (lo, hi)):
+                continue
+            Px = np.clip(x.real, lo, hi) + 1j * np.clip(x.imag, lo, hi)
+        if not cplx:
+            Px = Px.real
+        X = snp.array(np.asarray(x if cplx else x.real, dtype=dt))
+        res = (x if cplx else x.real) - Px
+        dist = float(np.linalg.norm(res))
+        ctx.case({"tag": "setdist_convex", "kind": kind, "cplx": cplx, "n": n, "inside": dist == 0.0}, ("setdist_convex", kind, cplx, n, dist == 0.0))
+        ctx.count(f"setdist_convex:{kind}:{'inside' if dist == 0.0 else 'outside'}")
+        case = {"kind": kind, "cplx": cplx, "x": G.enc(x)}
+        fs = functional.SquaredSetDistance(proj)
+
+        def orc(c, fs=fs, X=X, n=n, cplx=cplx, dt=dt):
+            gg = np.asarray(fs.grad(X)).ravel()
+            rr = np.random.Generator(np.random.PCG64(31))
+            for _ in range(4):
+                d = np.asarray(G.dy(rr, (n,), cplx), dtype=dt)
+                fd = fd_directional(fs, X, snp.array(d), 2.0**-12)
+                ri = float(np.real(np.sum(np.conj(gg) * d)))
+                if not abs(fd - ri) <= 1e-5 * (1 + abs(fd)):
+                    return {"x": c["x"], "d": G.enc(d), "re_inner_grad_d": ri, "finite_difference": fd}
+            return None
+
+        if not common.close(float(fs(X)), 0.5 * dist**2, TOLK):
+            ctx.disagree("setdist_convex.eval", case, float(fs(X)), 0.5 * dist**2, oracle=orc)
+            continue
+        if not _cmp_vec(ctx, "setdist_convex.squared.grad", case, fs.grad(X), np.asarray(res, dtype=np.complex128), orc):
+            continue
+        fd_ = functional.SetDistance(proj)
+        want = np.asarray(res / dist if dist > 0 else np.zeros(n), dtype=np.complex128)
+        _cmp_vec(ctx, "setdist_convex.distance.grad", case, fd_.grad(X), want, orc)
+
+
+def stream_nuclear(ctx, model):
+    """NuclearNorm away from repeated / zero singular values: `grad` must be the polar factor U V^H of X (thin SVD
+    computed independently with numpy), real and complex, square and rectangular; finite-difference oracle"""
+    import scico.numpy as snp
+    from scico import functional
+
+    rng = ctx.rng
+    f = functional.NuclearNorm()
+    for _ in range(ctx.n(10, 80)):
+        cplx = bool(rng.random() < 0.5)
+        dt = np.complex128 if cplx else np.float64
+        r, c = int(rng.integers(1, 4)), int(rng.integers(1, 4))
+        x = G.dy(rng, (r, c), cplx, nz=True) + 2.0**-5 * np.arange(r * c).reshape(r, c)
+        U, sv, Vh = np.linalg.svd(x if cplx else x.real, full_matrices=False)
+        gaps = np.abs(np.diff(sv)) if sv.size > 1 else np.array([1.0])
+        if sv.min() < 1e-2 or gaps.min() < 1e-2:
+            ctx.count("nuclear:discarded-near-degenerate")
+            continue
+        X = snp.array(np.asarray(x if cplx else x.real, dtype=dt))
+        case = {"shape": [r, c], "cplx": cplx, "x": G.enc(x)}
+        ctx.case({"tag": "nuclear", "shape": [r, c], "cplx": cplx}, ("nuclear", r, c, cplx))
+        ctx.count(f"nuclear:{'complex' if cplx else 'real'}")
+
+        def orc(c_, X=X, r=r, c=c, cplx=cplx, dt=dt):
+            gg = np.asarray(f.grad(X))
+            rr = np.random.Generator(np.random.PCG64(37))
+            for _ in range(4):
+                d = np.asarray(G.dy(rr, (r, c), cplx), dtype=dt)
+                fd = fd_directional(f, X, snp.array(d), 2.0**-12)
+                ri = float(np.real(np.sum(np.conj(gg) * d)))
+                if not abs(fd - ri) <= 1e-5 * (1 + abs(fd)):
+                    return {"x": c_["x"], "d": G.enc(d), "re_inner_grad_d": ri, "finite_difference": fd}
+            return None
+
+        if not common.close(float(f(X)), float(np.sum(sv)), TOLK):
+            ctx.disagree("nuclear.eval", case, float(f(X)), float(np.sum(sv)), oracle=orc)
+            continue
+        g = f.grad(X)
+        if list(np.shape(g)) != [r, c] or np.asarray(g).dtype != dt:
+            ctx.disagree("nuclear.grad.shape", case, {"shape": list(np.shape(g)), "dtype": str(np.asarray(g).dtype)}, {"shape": [r, c], "dtype": str(np.dtype(dt))}, oracle=orc)
+            continue
+        _cmp_vec(ctx, "nuclear.grad", case, g, np.asarray(U @ Vh, dtype=np.complex128).ravel(), orc, 1e-7)
+
+
 def stream_kinks(ctx, model):
     """L1Norm at points WITH zero coordinates (no gradient exists there): what `grad` returns must be a sub-gradient
     (theorem C07_l1_kink_subgradient): entries x_i/|x_i| where x_i != 0 (= the model), modulus <= 1 where x_i = 0
@@ -1262,7 +1371,7 @@ def stream_function(ctx, model):
                  ("function", k, idx, cplx, conjugate, inc, tuple(ns), m))
         ctx.count(f"function:arity={k}:index={idx}")
 
-        def forc(c, Fn=Fn, X=X, V=V, W=W, idx=idx):
+        def forc(c, Fn=Fn, X=X, V=V, W=W, idx=idx, inc=inc):
             """jvp in slot idx = finite difference of the function in that slot; value = F(*args);
             vjp(conjugate=True) adjoint to it"""
             h = 2.0**-10
@@ -1281,6 +1390,22 @@ def stream_function(ctx, model):
             rhs = float(np.real(np.sum(np.conj(gw) * np.asarray(V)))) if gw.shape == np.asarray(V).shape else float("nan")
             if not abs(lhs - rhs) <= 1e-5 * (1 + abs(lhs)):
                 return {"index": idx, "Re<w,J v>": lhs, "Re<vjp(w),v>": rhs}
+            # Function.jacobian(index, *args, include_eval): Jacobian block = finite difference in slot idx, evaluation
+            # block = F(*args), adj block adjoint to it
+            try:
+                Jf = Fn.jacobian(idx, *X, include_eval=inc)
+                je_, ja_ = Jf(V), Jf.adj(W)
+            except Exception as e:  # noqa: BLE001
+                return {"index": idx, "include_eval": inc, "jacobian_raised": repr(e)[:200]}
+            jb = list(je_.arrays) if hasattr(je_, "arrays") else [je_]
+            ab = list(ja_.arrays) if hasattr(ja_, "arrays") else [ja_]
+            if np.asarray(jb[-1]).shape != fd.shape or not np.allclose(np.asarray(jb[-1]), fd, rtol=1e-5, atol=1e-5):
+                return {"index": idx, "include_eval": inc, "jacobian(v)": G.enc(np.asarray(jb[-1])), "finite_difference_in_slot": G.enc(fd)}
+            if inc and not np.allclose(np.asarray(jb[0]), np.asarray(Fn(*X)), rtol=1e-9, atol=1e-9):
+                return {"index": idx, "include_eval": inc, "evaluation_block": G.enc(np.asarray(jb[0])), "F(*args)": G.enc(np.asarray(Fn(*X)))}
+            ra = float(np.real(np.sum(np.conj(np.asarray(ab[-1])) * np.asarray(V)))) if np.asarray(ab[-1]).shape == np.asarray(V).shape else float("nan")
+            if not abs(lhs - ra) <= 1e-5 * (1 + abs(lhs)):
+                return {"index": idx, "include_eval": inc, "Re<w,J v>": lhs, "Re<jacobian.adj(w),v>": ra}
             # conjugate=False: the plain transpose (the product function is holomorphic): sum (G w)_i v_i = sum w_i (J v)_i
             gt = np.asarray(Fn.vjp(idx, *X, conjugate=False)[1](W))
             lt = complex(np.sum(np.asarray(W) * fd))
@@ -1294,14 +1419,19 @@ def stream_function(ctx, model):
         ok = ok and _cmp_vec(ctx, "function.jvp", case, Jv, G.from_cv(got["jvp"]), forc)
         Fu2, Gmap = Fn.vjp(idx, *X, conjugate=conjugate)
         ok = ok and _cmp_vec(ctx, "function.vjp", case, Gmap(W), G.from_cv(got["vjp"]), forc)
-        J = Fn.jacobian(idx, *X, include_eval=inc)
-        for name, impl, modb in (("function.jacobian.eval", J(V), got["jeval"]["blocks"]), ("function.jacobian.adj", J.adj(W), got["jadj"]["blocks"])):
+        try:
+            J = Fn.jacobian(idx, *X, include_eval=inc)
+            jpairs = (("function.jacobian.eval", J(V), got["jeval"]["blocks"]), ("function.jacobian.adj", J.adj(W), got["jadj"]["blocks"]))
+        except Exception as e:  # noqa: BLE001
+            ctx.disagree("function.jacobian.raised", case, repr(e)[:200], "model: a value, no error", oracle=forc)
+            continue
+        for name, impl, modb in jpairs:
             blocks = list(impl.arrays) if hasattr(impl, "arrays") else [impl]
             if len(blocks) != len(modb):
-                ctx.disagree(name + ".blocks", case, len(blocks), len(modb))
+                ctx.disagree(name + ".blocks", case, len(blocks), len(modb), oracle=forc)
                 continue
             for b, mb_ in zip(blocks, modb):
-                ok = ok and _cmp_vec(ctx, name, case, b, G.from_cv(mb_))
+                ok = ok and _cmp_vec(ctx, name, case, b, G.from_cv(mb_), forc)
         po, cvj = scico.cvjp(ev, *X, jidx=idx)
         ok = ok and _cmp_vec(ctx, "cvjp.jidx.value", case, po, G.from_cv(G.cv(Fu_np)))
         ok = ok and _cmp_vec(ctx, "cvjp.jidx", case, cvj(W)[0], G.from_cv(got["cvjp"]))
@@ -2185,7 +2315,7 @@ def correspond(ctx, model):
 
     common.setup_scico()
     warnings.filterwarnings("ignore", message="Casting complex values to real")
-    for stream in (run_corpus, stream_boundary, stream_l21, stream_tv, stream_setdist, stream_linop_loss, stream_kinks, stream_fn, stream_blocks, stream_single, stream_real_arg,
+    for stream in (run_corpus, stream_boundary, stream_l21, stream_tv, stream_setdist, stream_setdist_convex, stream_nuclear, stream_linop_loss, stream_kinks, stream_fn, stream_blocks, stream_single, stream_real_arg,
                    stream_div_reject, stream_jac, stream_jac_block, stream_jac_mixed, stream_function, stream_hess, stream_heap, stream_heap_exhaustive, stream_autograd_api, stream_api_table, stream_linadj2):
         _guard(ctx, model, stream)
 
